@@ -730,7 +730,10 @@ func (s *Stage) cleanStrays(minAge time.Duration) {
 			filePath := strings.TrimSuffix(path, partExt)
 			fileState := s.getFileState(filePath)
 			fileHash := s.getFileHash(filePath)
-			if fileState > stateReceived {
+			if fileState > stateReceived && fileState != stateFailed {
+				// A validated copy of fileHash exists (held, delivered or logged). A file
+				// that failed validation has none: it is looked up in the log like an
+				// unknown one, or a retransmission in progress would lose its partial.
 				delete = comp == nil || comp.Hash == fileHash
 				// The companion goes only together with the partial it describes; a
 				// companion with another hash belongs to a newer version in progress.
